@@ -224,12 +224,22 @@ def mpirun(exe, np, args, env=None, timeout=900):
     if env:
         e.update({k: str(v) for k, v in env.items()})
     cmd = ["mpirun", "--allow-run-as-root", "--oversubscribe", "-n", str(np), exe] + list(args)
+    # own session: on a timeout only this launch (mpirun and its ranks) is killed, not other configurations of the same harness
+    import signal
+    p = subprocess.Popen(cmd, stdout=subprocess.PIPE, stderr=subprocess.STDOUT, text=True, env=e, start_new_session=True)
     try:
-        r = subprocess.run(cmd, stdout=subprocess.PIPE, stderr=subprocess.STDOUT, text=True, env=e, timeout=timeout)
-        return r.returncode, r.stdout
-    except subprocess.TimeoutExpired as ex:
-        sh("pkill -9 -f " + os.path.basename(exe))
-        return 124, (ex.stdout or "") if isinstance(ex.stdout, str) else "timeout"
+        out, _ = p.communicate(timeout=timeout)
+        return p.returncode, out
+    except subprocess.TimeoutExpired:
+        try:
+            os.killpg(p.pid, signal.SIGKILL)
+        except ProcessLookupError:
+            pass
+        try:
+            out, _ = p.communicate(timeout=20)
+        except Exception:
+            out = ""
+        return 124, (out or "") + "\ntimeout"
 
 
 def run_driver(casefile):
